@@ -1,0 +1,29 @@
+//go:build verif
+
+package sync
+
+// This file is only compiled with the `verif` build tag. It exposes read-only views of
+// internal state to the external model-checking harness.
+
+// VerifPendingRanges returns the [first, last] heights of every non-empty pending range.
+func (s *Syncer[H]) VerifPendingRanges() [][2]uint64 {
+	s.pending.lk.RLock()
+	defer s.pending.lk.RUnlock()
+	var out [][2]uint64
+	for _, r := range s.pending.ranges {
+		r.lk.RLock()
+		if len(r.headers) > 0 {
+			out = append(out, [2]uint64{r.headers[0].Height(), r.headers[len(r.headers)-1].Height()})
+		}
+		r.lk.RUnlock()
+	}
+	return out
+}
+
+// VerifSyncStoreHead returns the height cached by the syncStore wrapper (0 when unset).
+func (s *Syncer[H]) VerifSyncStoreHead() uint64 {
+	if p := s.store.head.Load(); p != nil {
+		return (*p).Height()
+	}
+	return 0
+}
